@@ -770,14 +770,15 @@ class _ClosedSystem(AxisOb):
                 f = w.src.values['f' + AX[a]]
                 f[-1] = f[-2] + (f[1] - f[0])
             w._mesh = None
-        k = w.facevar(ff.coef)
         if not w.symbolic and self.kind == 'periodic':
+            k0 = w.facevar(ff.coef)          # draws the random coefficient values
             for a in range(w.nd):
-                arr = getattr(k, '_' + AX[a] + 'value')
+                arr = w.src.values[ff.coef + AX[a]]
                 sl_lo = [slice(None)] * w.nd
                 sl_hi = [slice(None)] * w.nd
                 sl_lo[a], sl_hi[a] = 0, -1
                 arr[tuple(sl_hi)] = arr[tuple(sl_lo)]
+        k = w.facevar(ff.coef)
         inner = w.array('phi', tuple(w.N))
         S = dict(k=k)
         self._ff = ff
@@ -839,3 +840,73 @@ def _mk_closed():
 
 
 _mk_closed()
+
+
+# ------------------------------------------------------------------------------------------------
+#  M-matrix sign structure of  S = -diffusion + upwind  (per axis)                          (C07)
+
+class SignStructure(AxisOb):
+    """row P of S_a = -diffusionTerm_a(D) + convectionUpwindTerm_a(u), D >= 0: both off-diagonal entries (towards the
+    lower and the upper neighbour on axis a, which is a ghost cell next to the boundary) are <= 0, there is no other
+    entry, and the diagonal equals minus their sum plus (div_a u)_P.  With alpha/dt > 0, beta >= 0 and div u = 0
+    this is the hypothesis set of the discrete maximum principle lemma (lemmas/FVLemmas.lean: dmp_upper)."""
+    name = 'diffusion+upwind/m_matrix_sign_structure'
+    props = ('C07',)
+
+    def setup(self, w):
+        D = w.facevar('D', 'nonneg')
+        u = w.facevar('u')
+        Md, ds = parts(builder(dif, 'diffusionTerm', w.grid)(D))
+        Mu, us = parts(builder(adv, 'convectionUpwindTerm', w.grid)(u))
+        dv, dvs = parts(builder(cal, 'divergenceTerm', w.grid)(u))
+        return dict(ds=ds, us=us, dvs=dvs)
+
+    def _entries(self, w, S, P, a):
+        row = {}
+        for sign, M in ((-1, S['ds'][a]), (1, S['us'][a])):
+            for c, v in w.row(M, P):
+                off = None
+                for d in (-1, 0, 1):
+                    Q = shift(P, a, d)
+                    if w.symbolic:
+                        same = all(CTX.decide(I(x) == I(y)) for x, y in zip(c, Q))
+                    else:
+                        same = tuple(c) == tuple(Q)
+                    if same:
+                        off = d
+                        break
+                if off is None:
+                    row.setdefault('other', []).append(v)
+                else:
+                    row[off] = row.get(off, 0) + sign * v
+        return row
+
+    def claims(self, w, S, P, a):
+        row = self._entries(w, S, P, a)
+        lo, hi, dg = row.get(-1, 0), row.get(1, 0), row.get(0, 0)
+        div = w.vec(S['dvs'][a], P)
+        other_ok = 'other' not in row
+        if not w.symbolic:
+            w.scale = 100.0
+        return [('offdiag_lower_nonpositive[%s]' % AX[a], w.le(lo, 0)),
+                ('offdiag_upper_nonpositive[%s]' % AX[a], w.le(hi, 0)),
+                ('diag_is_minus_offdiag_plus_div_u[%s]' % AX[a], w.eq(dg, -(lo + hi) + div)),
+                ('no_other_entries[%s]' % AX[a], (B.const(other_ok) if w.symbolic else other_ok))]
+
+
+class CanaryCentralIsMMatrix(SignStructure):
+    """central differencing does not have the sign structure (must be refuted)"""
+    name = 'canary/central_scheme_has_m_matrix_signs'
+    grids = ('Grid1D', 'PolarGrid2D')
+    canary = True
+
+    def setup(self, w):
+        D = w.facevar('D', 'nonneg')
+        u = w.facevar('u')
+        Md, ds = parts(builder(dif, 'diffusionTerm', w.grid)(D))
+        Mu, us = parts(builder(adv, 'convectionTerm', w.grid)(u))
+        dv, dvs = parts(builder(cal, 'divergenceTerm', w.grid)(u))
+        return dict(ds=ds, us=us, dvs=dvs)
+
+    def claims(self, w, S, P, a):
+        return [c for c in super().claims(w, S, P, a) if c[0].startswith('offdiag_upper')]
